@@ -25,8 +25,9 @@ PROPS = {
              '"serves" a height when the peer-info manager reports it at or above that height and it answers with that block. '
              'Out of scope: cancellation of the protocol context, duplicate pids, peer heights changing during a task, block '
              'contents beyond the height. Bounds: TLC 2-3 peers x 2-3 heights, retry bound 5 in exhaustive runs (50 in '
-             'generated/recorded runs), recordings up to 4 peers x 5 heights. The concurrency limit (>= 20 requests per peer) '
-             'is only reached in the model (Limit=1 configuration), not on the real code.',
+             'generated/recorded runs), recordings up to 4 peers x 5 heights. The per-peer concurrency limit (42-50 requests) is '
+             'explored exhaustively only in the model (Limit=1 configuration); on the real code it is reached by three scripted '
+             'runs (60/130/55 heights, peers holding their replies) that are judged on the property observables, not validated by TLC.',
     ),
 }
 
@@ -70,6 +71,83 @@ def _counterexample(res, tag):
     return _candidates(bs, '')
 
 
+def _replay(ctx, binary, bs, opts=None, par=8, timeout=3600, name=None):
+    """ctx.replay, except that model-fidelity errors of the driver (the mechanism model mispredicts the code although the
+    property's observables agree) do not abort the run at once: a disagreement on the property observed in the same run is
+    the verdict (exit 1); fidelity errors alone make the run exit 2 at the end (see run())."""
+    if not bs:
+        raise vlib.Broken('no behaviours to replay (generator produced nothing)')
+    name = name or 'behaviours-%d.ndjson' % len(os.listdir(ctx.scratch))
+    p = ctx.write_behaviours(bs, name)
+    outp = p + '.summary.json'
+    optstr = ','.join('%s=%s' % kv for kv in (opts or {}).items())
+    cmd = [binary, 'replay', '--in', p, '--out', outp, '--replays', vlib.REPLAYS, '--prop', ctx.prop, '--tier', ctx.tier,
+           '--seed', str(ctx.seed), '--par', str(par), '--opt', optstr]
+    rc, out = vlib.sh(cmd, cwd=ctx.scratch, timeout=timeout)
+    if rc == 124:
+        raise vlib.Broken('replay timeout (%ds)' % timeout)
+    if not os.path.exists(outp):
+        raise vlib.Broken('replay driver died rc=%d:\n%s' % (rc, out[-4000:]))
+    s = json.load(open(outp))
+    s['mismatches'] = s.get('mismatches') or []
+    errs = s.get('errors') or []
+    other = [e for e in errs if 'model fidelity:' not in e]
+    if other:
+        raise vlib.Broken('replay driver errors: %s' % other[:5])
+    vlib.log('[replay] %s %s: %d behaviours, %d steps, %d compared, %d non-trivial, %d mismatching signatures, %d fidelity errors' %
+             (os.path.basename(binary), optstr, s['behaviours'], s['steps'], s['compared'], s['nontrivial'], len(s['mismatches']), len(errs)))
+    ctx.evaluations += s['behaviours']
+    ctx.traces += s['behaviours']
+    ctx.nontrivial += s['nontrivial']
+    for x in s.get('samples') or []:
+        if len(ctx.samples) < 4:
+            ctx.samples.append(x)
+    ctx.mismatches.extend(s['mismatches'])
+    ctx.extra.setdefault('_fidelity_errors', []).extend(errs)
+    return s
+
+
+def _scenario(sid, np_, nh, hold, beh=None):
+    beh = beh or [['ok'] * nh for _ in range(np_)]
+    return dict(fam=FAMILY, cfg='scenario', id=sid, steps=[
+        dict(op='Start', np=np_, nh=nh, ph=[nh] * np_, beh=beh, arr0=list(range(1, np_ + 1)), free=True, hold=hold, ret='-'),
+        dict(op='TaskDone', ret=DEMAND)])
+
+
+def _scenarios(ctx, b):
+    scs = [_scenario('busy-1x60', 1, 60, 50), _scenario('busy-3x130', 3, 130, 126),
+           _scenario('busy-2x55', 2, 55, 50, [['refuse'] * 55, ['ok'] * 55])]
+    p = ctx.write_behaviours(scs, 'scenarios.ndjson')
+    rc, out = vlib.sh([b, 'scenario', '--prop', ctx.prop, '--seed', str(ctx.seed), '--tier', ctx.tier, p], timeout=1800)
+    line = [l for l in out.splitlines() if l.startswith('@@SCENARIO ')]
+    if rc != 0 or not line:
+        raise vlib.Broken('scenario run failed rc=%d:\n%s' % (rc, out[-3000:]))
+    res = json.loads(line[-1][len('@@SCENARIO '):])
+    vlib.log('[scenario] ' + '; '.join('%s: rechecked=%s max_inflight=%s ret=%s' % (r['id'], r.get('rechecked'), r.get('max_inflight'),
+                                                                                   json.dumps(r['ret'])) for r in res))
+    for sc, r in zip(scs, res):
+        ctx.evaluations += 1
+        ctx.traces += 1
+        if r['ret'] != DEMAND:
+            rp = os.path.join(vlib.REPLAYS, '%s-%s-%d-%s.json' % (ctx.prop, FAMILY, ctx.seed, sc['id']))
+            json.dump(dict(property=ctx.prop, family=FAMILY, seed=ctx.seed, tier=ctx.tier, opts={}, behaviour=sc, failing_step=1,
+                           field='ret', expected=DEMAND, observed=r['ret'], signature=r['signature']), open(rp, 'w'), indent=1)
+            ctx.mismatches.append(dict(signature=r['signature'], replay=rp, expected=DEMAND, observed=r['ret'], field='ret'))
+        elif not r.get('nontrivial'):
+            raise vlib.Broken('scenario %s did not reach the concurrency limit (no height went through the re-download pass)' % sc['id'])
+        else:
+            ctx.nontrivial += 1
+    ctx.extra['busy_scenarios'] = [dict(id=r['id'], rechecked=r.get('rechecked'), max_inflight=r.get('max_inflight')) for r in res]
+
+
+def _fidelity_verdict(ctx):
+    errs = ctx.extra.pop('_fidelity_errors', [])
+    if errs and not ctx.mismatches:
+        raise vlib.Broken('the mechanism model no longer describes the code (no disagreement on the property was observed): %s' % errs[:4])
+    if errs:
+        ctx.notes.append('model-fidelity errors next to the reported disagreement: %s' % errs[:3])
+
+
 def run(ctx):
     q = ctx.tier == 'quick'
     ctx.rule = ('cases = (behaviour assignment, pid order, schedule) triples: TLC simulation of Download.tla draws a peer '
@@ -83,6 +161,7 @@ def run(ctx):
     T = 3600
     # 1. the mechanism as it is in the code now: properties hold for all assignments and interleavings
     ctx.tlc_mc('Download_MC', 'Download_MCq.cfg', workers=4, timeout=T)
+    ctx.tlc_mc('Download_MC', 'Download_MCq3.cfg', workers=4, timeout=T)
     ctx.tlc_mc('Download_MC', 'Download_MCbusy.cfg', workers=4, timeout=T)
     ctx.tlc_mc('Download_MC', 'Download_Live.cfg', workers=2, timeout=T)
     if not q:
@@ -101,6 +180,12 @@ def run(ctx):
             raise vlib.Broken('%s: expected TLC to refute %s in the pre-fix mechanism, got %s' % (cfg, inv, r['violation']))
         cands += _counterexample(r, cfg.split('.')[0].replace('Download_', ''))
     ctx.extra['prefix_mechanisms_refuted_by_tlc'] = [c for c, _ in olds]
+    if not q:
+        # informational: the stronger reading of "within the same task" (never again under the same task id) does not hold
+        # by design: checkTask rebuilds the full peer list for the re-download pass
+        r = ctx.tlc_mc('Download_MC', 'Download_Strong.cfg', workers=2, timeout=T, expect_violation=True, count=False)
+        ctx.notes.append('informational: NoReaskTask (stronger reading, not a verdict) is %s in the model of the current code'
+                         % ('refuted by the re-download pass' if r['violation'] == 'NoReaskTask' else 'not refuted'))
 
     b = vlib.build(DRIVER)
     # 3. binding A: generated (assignment, schedule) pairs under gates
@@ -109,16 +194,16 @@ def run(ctx):
     incomplete = [x['id'] for x in bs if x['steps'][-1].get('op') != 'TaskDone']
     if incomplete:
         raise vlib.Broken('generated behaviours did not reach TaskDone: %s' % incomplete[:3])
-    ctx.replay(b, bs, opts=dict(stuck_ms=60000), par=8, timeout=T)
+    _replay(ctx, b, bs, opts=dict(stuck_ms=60000), par=8, timeout=T)
     old = _strip(ctx.tlc_sim('Download_MC', 'Download_GenOld.cfg', num=n // 2, depth=500, keep_init=True, timeout=T,
                              seed=ctx.seed + 7))
     cands += _candidates(old, 'old-')
-    ctx.replay(b, cands, opts=dict(stuck_ms=60000), par=8, timeout=T)
+    _replay(ctx, b, cands, opts=dict(stuck_ms=60000), par=8, timeout=T)
     if not q:
         for sd in range(1, 4):
             bs2 = _strip(ctx.tlc_sim('Download_MC', 'Download_Gen.cfg', num=n, depth=500, keep_init=True, timeout=T,
                                      seed=ctx.seed * 100 + sd))
-            ctx.replay(b, bs2, opts=dict(stuck_ms=60000, salt=sd), par=8, timeout=T)
+            _replay(ctx, b, bs2, opts=dict(stuck_ms=60000, salt=sd), par=8, timeout=T)
         # replayer self-test: a behaviour whose demand is flipped must fail
         bad = [dict(bs[0], id='selftest', steps=bs[0]['steps'][:-1] + [dict(bs[0]['steps'][-1], ret=dict(DEMAND, done=False))])]
         p = ctx.write_behaviours(bad, 'selftest.ndjson')
@@ -128,7 +213,10 @@ def run(ctx):
         if not s.get('mismatches'):
             raise vlib.Broken('replayer self-test: a flipped demand was not reported')
         ctx.extra['selftest_flipped_demand_rejected'] = True
-    # 4. binding B: free-running recordings validated by the trace specification
+    # 4. the per-peer concurrency limit on the real code: peers hold their good replies until the limit is
+    #    reached and the remaining heights have run out of retries; those must come back through the re-download pass
+    _scenarios(ctx, b)
+    # 5. binding B: free-running recordings validated by the trace specification
     r, s = ctx.validate_recording(b, 'Download_Trace', 'Download_Trace.cfg', dfs=True, timeout=2 * T,
                                   opts=dict(n=15 if q else 120, peers=4, heights=4 if q else 5, stuck_ms=60000))
     ctx.extra['recorded'] = s.get('counters')
@@ -136,7 +224,7 @@ def run(ctx):
                      'failed that height earlier in the same task (re-download pass), out of %d requests in %d recorded tasks'
                      % ((s.get('counters') or {}).get('reask_same_task_informational', 0), (s.get('counters') or {}).get('asks', 0),
                         s.get('behaviours', 0)))
-    if r['accepted'] and (not q or ctx.seed % 2 == 1):
+    if r["accepted"]:
         # binding self-test: one recorded reply flipped / one event dropped must be rejected
         tp = [os.path.join(ctx.scratch, f) for f in os.listdir(ctx.scratch) if f.startswith('trace-') and f.endswith('.ndjson')][-1]
 
@@ -146,6 +234,7 @@ def run(ctx):
                 return True
             return False
         ctx.trace_selftest('Download_Trace', 'Download_Trace.cfg', tp, dfs=True, mutate=flip)
+    _fidelity_verdict(ctx)
 
 
 import vlib  # noqa: E402
